@@ -66,6 +66,10 @@ def run(ctx):
             y = gen.labels(r, n, kcls)
             if r.random() < 0.35:
                 y = y - r.choice([1, 2])          # class labels need not be 0..k-1: e.g. the {-1, +1} coding
+            elif r.random() < 0.4:
+                # large codes that differ by one (year-month stamps, ids): equality of labels is exact, not "close"
+                y = y + r.choice([10 ** 5, 202401, 10 ** 9, 2 ** 40])
+                cov.hit("large-adjacent-class-labels")
             spec = {"cls": "SimpleARTMAP", "module_a": aspec}
         desc = {"spec": spec, "X": X.tolist(), "y": y.tolist(), "mode": mode, "eps": eps}
         try:
